@@ -1162,20 +1162,12 @@ Lemma values_clean_quoted isprint : (forall r, 0 <= r < 128 -> isprint r = (32 <
   /\ Forall clean (strip_sgr (ser_value isprint ShColor clr bg [] (VErr s)))
   /\ Forall clean (strip_sgr (ser_value isprint ShColor clr bg [] (VBytes s)))
   /\ Forall clean (strip_sgr (ser_value isprint ShColor clr bg [] (VDur s)))
-  /\ Forall clean (strip_sgr (ser_value isprint ShColor clr bg [] (VStrs l))).
+  /\ Forall clean (strip_sgr (ser_value isprint ShColor clr bg [] (VStrs l)))
+  /\ Forall clean (strip_sgr (ser_value isprint ShColor clr bg [] (VFallback s))).
 Proof.
   intros Hi clr bg s l Hc Hb.
   assert (H : forall v, raw_texts v = [] -> Forall clean (strip_sgr (ser_value isprint ShColor clr bg [] v))).
   { intros v Hv. destruct (values_clean isprint Hi clr bg v [] Hc Hb (Forall_nil _)) as [[B1 _] C]; [rewrite Hv; constructor|].
     rewrite <- (app_nil_r (ser_value _ _ _ _ _ v)), B1, app_nil_r. exact C. }
   repeat split; apply H; reflexivity.
-Qed.
-
-Lemma fallback_raw (isprint : Z -> bool) (clr bg : Z) :
-  exists t, ~ Forall clean (strip_sgr (ser_value isprint ShColor clr bg [] (VFallback t))).
-Proof.
-  exists [x7b; x7b; x1b; x5b; x32; x4a; x7d; x7d].   (* {{ESC[2J}} *)
-  cbn [ser_value]. intros H. rewrite Forall_forall in H.
-  assert (Hin : In x1b (strip_sgr [x7b; x7b; x1b; x5b; x32; x4a; x7d; x7d])) by (vm_compute; tauto).
-  destruct (H x1b Hin) as [H1 _]. vm_compute in H1. apply H1. reflexivity.
 Qed.
